@@ -345,6 +345,14 @@ impl ConfigLockfile {
     }
 }
 
+// True if `prefix` equals `path` or names one of its ancestor directories; the
+// trie matches raw bytes, so `app` would otherwise count as a prefix of `app2`.
+fn is_path_prefix(prefix: &str, path: &str) -> bool {
+    path.len() == prefix.len()
+        || prefix.ends_with('/')
+        || path.as_bytes().get(prefix.len()) == Some(&b'/')
+}
+
 #[derive(Debug)]
 pub(crate) struct Index<'a> {
     pub(crate) targets: Vec<String>,
@@ -402,7 +410,7 @@ impl<'a> Index<'a> {
             // if this target is under an existing target, add it as a dep
             let mut nodes = targets_trie
                 .common_prefix_search(target_path_str)
-                .filter(|t: &String| t != &target.path)
+                .filter(|t: &String| t != &target.path && is_path_prefix(t, target_path_str))
                 .map(|t| dag.get_node_by_label(&t).map_err(MonorailError::from))
                 .collect::<Result<Vec<usize>, MonorailError>>()?;
 
@@ -410,8 +418,10 @@ impl<'a> Index<'a> {
                 for s in uses {
                     let uses_path_str = s.as_str();
                     uses_builder.push(uses_path_str);
-                    let matching_targets: Vec<String> =
-                        targets_trie.common_prefix_search(uses_path_str).collect();
+                    let matching_targets: Vec<String> = targets_trie
+                        .common_prefix_search(uses_path_str)
+                        .filter(|t: &String| is_path_prefix(t, uses_path_str))
+                        .collect();
                     use2targets.entry(s).or_default().push(target_path_str);
                     // a dependency has been established between this target and some
                     // number of targets, so we update the graph
